@@ -23,7 +23,9 @@ SHRINK_LISTS = [('faults',)]
 EXPECTED_PROBES = ['fault_before_connected', 'fault_after_ready',
                    'next_address_tried', 'all_addresses_tried',
                    'app_call_got_wse',
-                   'fault_in_proxy_phase', 'fault_on_tls']
+                   'fault_in_proxy_phase', 'fault_on_tls', 'two_sessions',
+                   'persist_marathon',
+                   'stalled_writes']
 
 
 def _echo_app():
@@ -210,10 +212,127 @@ SLOTS = 6000
 def plan(tier):
     nb = len(bases())
     return [('sweep', nb * SLOTS),
-            ('multi', 3000 if tier == 'quick' else 150000)]
+            ('multi', 3000 if tier == 'quick' else 150000),
+            ('two_sessions', 400 if tier == 'quick' else 20000),
+            ('persist_marathon', 8 if tier == 'quick' else 200)]
+
+
+def _two_sessions_case(rng):
+    """ThreadSim: two WebSocket objects, each with its own event-loop
+    thread.  A send on the first one is stuck in sendall (its peer stopped
+    reading) while the transport of the second one fails: the second one must
+    still report it promptly and release its socket."""
+    return {'two_sessions': True,
+            'fail': rng.choice(['eof', 'rst', 'eof', 'ping_timeout']),
+            'fail_after': rng.choice([1500001, 3000001, 7000001]),
+            'stall_us': rng.choice([30000001, 60000001]),
+            'size': rng.choice([300, 70000]),
+            'poll2': rng.choice([0.5, 2]),
+            # fair schedules only (the clock advances when nobody can run):
+            # the oracle below is about WHEN the failure is reported, and a
+            # random walk may starve a runnable thread for simulated minutes
+            'schedule': {'kind': 'preempt', 'points': [[1, 1]] + (
+                [[rng.randrange(2, 400), rng.randrange(3)]]
+                if rng.random() < 0.6 else [])}}
+
+
+def _execute_two(case):
+    from .. import threadsim
+    res = Result()
+    fail = case['fail']
+    steps2 = S.handshake_steps()
+    connect2 = {'poll': case['poll2'], 'ping_rate': 0}
+    if fail == 'ping_timeout':
+        connect2 = {'poll': case['poll2'], 'ping_rate': 1,
+                    'ping_timeout': case['fail_after'] / 1e6}
+        steps2.append({'op': 'silence'})
+    else:
+        steps2.append({'op': fail, 'after': case['fail_after']})
+    sc = {'url': 'ws://example.test/', 'ws': {'compress': False},
+          'connect': {'poll': 1, 'ping_rate': 0, 'close_timeout': 3},
+          'conns_by_host': {
+              'example.test': [{'server': S.handshake_steps() + [
+                  S.eof(after=case['stall_us'] + 20000000)]}],
+              'b.test': [{'server': steps2}]},
+          'second': {'url': 'ws://b.test/', 'connect': connect2},
+          'threads': [[{'op': 'send_binary',
+                        'hex': (b'S' * case['size']).hex()}]],
+          'stall': {'tid': 1, 'k': 0, 'us': case['stall_us']},
+          'schedule': case['schedule'], 'start_at': {'name': 'ready'},
+          'max_steps': 60000}
+    tr, sched = threadsim.run(sc)
+    w = tr.world
+    res.stats.update(w.stats)
+    for k, v in sched.stats.items():
+        res.stats['probe:' + k] += v
+    res.sim_us = w.now
+    import hashlib
+    h = hashlib.sha256(tr.digest().encode())
+    h.update(repr([(e.name, e.t) for e in tr.events2]).encode())
+    h.update(repr(sorted(sched.switches.items())).encode())
+    res.digest = h.hexdigest()
+    if sched.error is not None:
+        raise RuntimeError('ThreadSim harness error: %r' % (sched.error,))
+    names2 = [e.name for e in tr.events2]
+    res.stats['probe:two_sessions'] += 1
+    if tr.hang:
+        res.bad('C09/two_sessions/hang', tr.hang)
+    if tr.escaped2:
+        res.bad('C09/two_sessions/exception_escaped', '%s %s' % tr.escaped2)
+    limit = case['fail_after'] + int(2 * case['poll2'] * 1e6) + 1000000
+    disc = [e for e in tr.events2 if e.name == 'disconnected']
+    if not disc:
+        res.bad('C09/two_sessions/no_terminal_event',
+                'second connection: %s' % names2[-5:])
+    else:
+        if disc[-1].t > limit:
+            res.bad('C09/two_sessions/failure_reported_late',
+                    'the transport of the second connection failed at '
+                    '%.1f s; Disconnected came at %.1f s, when the first '
+                    'connection\'s stalled send returned (%.0f s)' % (
+                        case['fail_after'] / 1e6, disc[-1].t / 1e6,
+                        case['stall_us'] / 1e6))
+        if disc[-1].snap[1]:
+            res.bad('C09/two_sessions/graceful', 'graceful=True')
+        if not tr.finished2:
+            res.bad('C09/two_sessions/iteration_did_not_stop', '')
+    s2 = w.socks[0] if w.socks else None
+    if s2 is not None and not s2.closed:
+        res.bad('C09/two_sessions/socket_left_open',
+                'second connection: %s' % names2[-4:])
+    res.nontrivial = sched.stats.get('stalled_writes', 0) > 0 and bool(disc)
+    res.sig = 'two|%s|%s|%s' % (fail, case['fail_after'], names2[-3:])
+    res.sample = {'case': {k: v for k, v in case.items() if k != 'schedule'},
+                  'second_events': [(e.name, e.t) for e in tr.events2][-6:],
+                  'first_events': [e.name for e in tr.events][-6:]}
+    return res
+
+
+def _execute_marathon(case):
+    """persist(): more than a thousand consecutive transport failures; not
+    one of them may leave the iterator as an exception (scenario and run are
+    C16's, judged here for exceptions and hangs only)."""
+    from . import C16
+    c = dict(case)
+    c.pop('persist_marathon')
+    r = C16.execute(c)
+    keep = [(k, m) for k, m in r.violations
+            if 'escaped' in k or 'hang' in k or 'exception' in k or
+            'ended' in k]
+    r.violations = [('C09/persist_marathon/' + k.split('/', 1)[1], m)
+                    for k, m in keep]
+    r.stats['probe:persist_marathon'] += 1
+    return r
 
 
 def make_case(family, i, rng, tier):
+    if family == 'two_sessions':
+        return _two_sessions_case(rng)
+    if family == 'persist_marathon':
+        from . import C16
+        c = C16.make_case('marathon', i, rng, tier)
+        c['persist_marathon'] = True
+        return c
     nb = len(_bases())
     if family == 'sweep':
         b = i // SLOTS
@@ -268,6 +387,10 @@ def build(case):
 
 
 def execute(case):
+    if case.get('two_sessions'):
+        return _execute_two(case)
+    if case.get('persist_marathon'):
+        return _execute_marathon(case)
     res = Result()
     sc = build(case)
     tr = netsim.run(sc)
